@@ -925,6 +925,59 @@ func x02RunBehaviour(b *x02Behaviour) (r *x02Run, clean bool) {
 	return r, clean
 }
 
+// Known finding D23 (Relay.tla: SessionChosenAtAccept), one deterministic scenario on the virtual clock, run for every
+// seed in both tiers: StreamTimeout 300 s, a local connection is accepted, stays silent for 31 s and then sends its
+// first bytes. They must reach the proxy side. (RouteTCP chose the session when it accepted the connection; that
+// session, without any stream, has closed itself after 30 s: OpenStream fails, the connection is dropped.)
+const x02FirstBytesKey = "relay-first-bytes-lost:session-idled-out-before-first-read"
+
+func x02FirstBytes(t *testing.T, res *kit.Result) {
+	arrived, lrel, made, clean := false, "", 0, true
+	synctest.Test(t, func(t *testing.T) {
+		b := &x02Behaviour{Gen: "first-bytes", STO: 20, NConn: 1}
+		w := x02Setup(b)
+		r := &x02Run{w: w}
+		r.exec(1, x02Ev{A: "LocalDial", I: 1}, nil)
+		time.Sleep(31 * time.Second)
+		w.settle()
+		r.exec(2, x02Ev{A: "LocalWrite", I: 1}, nil)
+		for round := 0; round < 4; round++ {
+			for _, l := range w.vn.Links() {
+				l.ReleaseAll()
+			}
+			synctest.Wait()
+		}
+		if pls := w.proxyn.Links(); len(pls) >= 1 {
+			if data, _, err := x02ReadNow(pls[0].End(1)); err == nil {
+				conns, ks, ok := x02Parse(data, 1)
+				arrived = ok && len(conns) == 1 && conns[0] == 1 && ks[0] == 1
+			}
+		}
+		lrel = x02StateName(!w.localLink(1).ClosedBy(1))
+		w.mu.Lock()
+		made = w.newCalls
+		w.mu.Unlock()
+		w.lapp[0].Close()
+		for _, l := range w.proxyn.Links() {
+			l.End(1).Close()
+		}
+		synctest.Wait()
+		clean = w.teardown()
+		if !clean {
+			res.Note("first-bytes scenario: goroutines remained after the forced teardown")
+			res.Save(false)
+			os.Exit(4)
+		}
+	})
+	res.Count("scenario:first-bytes-after-31s", true)
+	res.Stat("gen:first-bytes", 1)
+	if !arrived {
+		res.Violate(x02FirstBytesKey, fmt.Sprintf("StreamTimeout 300 s; a local connection was accepted, stayed silent for 31 s and then sent its first bytes: they did not reach the proxy side "+
+			"(relay end of the local connection now %s, sessions made %d): the session chosen at accept time had idled out, OpenStream failed", lrel, made),
+			map[string]any{"scenario": "first-bytes-after-31s", "stream_timeout_s": 300, "silent_s": 31})
+	}
+}
+
 func TestVerifX02Replay(t *testing.T) {
 	log.SetOutput(io.Discard)
 	log.SetLevel(log.PanicLevel)
@@ -952,6 +1005,9 @@ func TestVerifX02Replay(t *testing.T) {
 			}
 		}
 	}()
+	if kit.Env("X02_FIRSTBYTES", "1") != "0" {
+		x02FirstBytes(t, res)
+	}
 	idx := 0
 	err := kit.ReadLines(in, func(line []byte) error {
 		var b x02Behaviour
